@@ -45,6 +45,21 @@ pub fn pin_to_cpu(k: u64) {
     }
 }
 
+fn sandbox_base() -> String {
+    std::env::var("DSIM_SANDBOX").unwrap_or_else(|_| {
+        if std::path::Path::new("/dev/shm").is_dir() {
+            "/dev/shm".to_string()
+        } else {
+            std::env::temp_dir().to_string_lossy().into_owned()
+        }
+    })
+}
+
+/// A worker that was killed could not remove its sandbox; its parent does.
+pub fn sandbox_reap(pid: u32) {
+    let _ = std::fs::remove_dir_all(format!("{}/dsim-{}", sandbox_base(), pid));
+}
+
 pub fn sandbox_done(root: &str) {
     let _ = std::env::set_current_dir("/");
     let _ = std::fs::remove_dir_all(root);
@@ -237,6 +252,7 @@ fn mk_replay<P: Prop>(
         thorough,
         minimised,
         known_finding: None,
+        history: vec![],
         workload: serde_json::to_value(w).unwrap(),
         tape: r.tape.clone(),
         events: r.events.clone(),
@@ -384,6 +400,10 @@ pub fn replay<P: Prop>(verif_dir: &str, file: &str, expect: bool) -> i32 {
     };
     let root = sandbox_init();
     P::init_process();
+    for h in rf.history.iter() {
+        // earlier runs of the same process; only their side effects matter
+        let _ = exec_one::<P>(rf.verif_seed, *h, rf.thorough);
+    }
     let r = replay_run::<P>(&wl, &rf.tape, rf.entropy_seed);
     sandbox_done(&root);
     match r {
@@ -500,7 +520,7 @@ struct Agg {
     sum: WorkerSummary,
     keys: HashSet<u64>,
     aborted: Vec<(u64, String)>,
-    violations: Vec<(ReplayFile, ReplayFile)>,
+    violations: Vec<(ReplayFile, ReplayFile, u64)>,
     harness: Vec<String>,
 }
 
@@ -594,7 +614,7 @@ pub fn check<P: Prop>(o: &CheckOpts) -> i32 {
                             last_begin = Some(i);
                             beat.lock().unwrap().0 = Instant::now();
                         }
-                        Ok(WorkerMsg::Violation(a, b)) => agg.violations.push((*a, *b)),
+                        Ok(WorkerMsg::Violation(a, b)) => agg.violations.push((*a, *b, start)),
                         Ok(WorkerMsg::Harness(e)) => agg.harness.push(e),
                         Ok(WorkerMsg::Done) => got_summary = true,
                         Ok(WorkerMsg::Summary(s)) => {
@@ -629,6 +649,7 @@ pub fn check<P: Prop>(o: &CheckOpts) -> i32 {
                 let st = child.wait().ok();
                 beat.lock().unwrap().1 = true;
                 let _ = watcher.join();
+                sandbox_reap(pid as u32);
                 if got_summary {
                     break;
                 }
@@ -692,7 +713,7 @@ pub fn check<P: Prop>(o: &CheckOpts) -> i32 {
     let mut confirmed: Vec<(String, ReplayFile)> = Vec::new();
     let mut nonrepro: Vec<String> = Vec::new();
     all.violations.sort_by_key(|v| v.0.run_index);
-    for (min, orig) in all.violations.iter().take(8) {
+    for (min, orig, seg_start) in all.violations.iter().take(8) {
         let base = format!("{}/{}-{}-{}", rdir, P::id(), o.seed, min.run_index);
         let fmin = format!("{}.json", base);
         let forig = format!("{}.orig.json", base);
@@ -715,10 +736,36 @@ pub fn check<P: Prop>(o: &CheckOpts) -> i32 {
             let _ = std::fs::rename(&forig, &fmin);
             confirmed.push((fmin, orig.clone()));
         } else {
-            nonrepro.push(format!(
-                "run {} ({}: {}) did not reproduce in a fresh process",
-                min.run_index, orig.invariant, orig.message
-            ));
+            // not reproducible from the run alone: the violation may need state left behind
+            // by earlier runs of the same worker process (itself a history dependence).
+            // Replay the worker's history: shortest power-of-two suffix that reproduces.
+            let hist: Vec<u64> = (*seg_start..orig.run_index)
+                .step_by(workers as usize)
+                .collect();
+            let mut found = false;
+            let mut k = 1usize;
+            while !hist.is_empty() {
+                let k2 = k.min(hist.len());
+                let mut cand = orig.clone();
+                cand.history = hist[hist.len() - k2..].to_vec();
+                std::fs::write(&fmin, serde_json::to_string_pretty(&cand).unwrap()).ok();
+                if run(&fmin) == Some(1) {
+                    let _ = std::fs::remove_file(&forig);
+                    confirmed.push((fmin.clone(), cand));
+                    found = true;
+                    break;
+                }
+                if k2 == hist.len() {
+                    break;
+                }
+                k *= 2;
+            }
+            if !found {
+                nonrepro.push(format!(
+                    "run {} ({}: {}) did not reproduce in a fresh process, with or without the worker's history",
+                    min.run_index, orig.invariant, orig.message
+                ));
+            }
         }
     }
 
@@ -734,13 +781,21 @@ pub fn check<P: Prop>(o: &CheckOpts) -> i32 {
     }
     for (f, rf) in confirmed.iter() {
         println!(
-            "violation: {} — {} (run {}, {} events, {} tape entries{})",
+            "violation: {} — {} (run {}, {} events, {} tape entries{}{})",
             rf.invariant,
             rf.message,
             rf.run_index,
             rf.events.len(),
             rf.tape.iter().filter(|e| e.2 != 0).count(),
-            if rf.minimised { ", minimised" } else { "" }
+            if rf.minimised { ", minimised" } else { "" },
+            if rf.history.is_empty() {
+                String::new()
+            } else {
+                format!(
+                    "; shows only after {} earlier run(s) in the same process: state leaks between runs",
+                    rf.history.len()
+                )
+            }
         );
         println!("VIOLATION property={} replay={}", P::id(), f);
     }
@@ -870,38 +925,77 @@ pub fn determinism<P: Prop>(verif_seed: u64, thorough: bool, n: u64) -> i32 {
     let exe = std::env::current_exe().unwrap();
     let run_cfg = |chunks: u64| -> Option<BTreeMap<u64, String>> {
         let per = (n + chunks - 1) / chunks;
-        let mut kids = Vec::new();
+        let mut threads = Vec::new();
         for c in 0..chunks {
             let from = c * per;
             let to = ((c + 1) * per).min(n);
             if from >= to {
                 continue;
             }
-            let child = Command::new(&exe)
-                .args([
-                    "determinism-worker",
-                    P::id(),
-                    &verif_seed.to_string(),
-                    if thorough { "thorough" } else { "quick" },
-                    &from.to_string(),
-                    &to.to_string(),
-                ])
-                .stdout(Stdio::piped())
-                .stderr(Stdio::null())
-                .spawn()
-                .ok()?;
-            kids.push(child);
-        }
-        let mut m = BTreeMap::new();
-        for k in kids {
-            let out = k.wait_with_output().ok()?;
-            for l in String::from_utf8_lossy(&out.stdout).lines() {
-                if let Some((i, rest)) = l.split_once(' ') {
-                    if let Ok(i) = i.parse::<u64>() {
-                        m.insert(i, rest.to_string());
+            let exe = exe.clone();
+            let id = P::id().to_string();
+            threads.push(std::thread::spawn(move || {
+                let mut m: BTreeMap<u64, String> = BTreeMap::new();
+                let mut cur = from;
+                // a run that kills its process (stack overflow in the code under test) or
+                // exceeds the time limit is recorded as "aborted" and the chunk resumes after it
+                while cur < to {
+                    let mut child = match Command::new(&exe)
+                        .args([
+                            "determinism-worker",
+                            &id,
+                            &verif_seed.to_string(),
+                            if thorough { "thorough" } else { "quick" },
+                            &cur.to_string(),
+                            &to.to_string(),
+                        ])
+                        .stdout(Stdio::piped())
+                        .stderr(Stdio::null())
+                        .spawn()
+                    {
+                        Ok(c) => c,
+                        Err(_) => break,
+                    };
+                    let beat = std::sync::Arc::new(std::sync::Mutex::new((Instant::now(), false)));
+                    let beat2 = beat.clone();
+                    let pid = child.id() as i32;
+                    let limit = Duration::from_secs(if thorough { 240 } else { 60 });
+                    let watcher = std::thread::spawn(move || loop {
+                        std::thread::sleep(Duration::from_millis(500));
+                        let (t, done) = *beat2.lock().unwrap();
+                        if done {
+                            break;
+                        }
+                        if t.elapsed() > limit {
+                            unsafe { libc::kill(pid, libc::SIGKILL) };
+                            break;
+                        }
+                    });
+                    let rd = BufReader::new(child.stdout.take().unwrap());
+                    for l in rd.lines().map_while(|l| l.ok()) {
+                        if let Some((i, rest)) = l.split_once(' ') {
+                            if let Ok(i) = i.parse::<u64>() {
+                                m.insert(i, rest.to_string());
+                                cur = i + 1;
+                                beat.lock().unwrap().0 = Instant::now();
+                            }
+                        }
+                    }
+                    let _ = child.wait();
+                    beat.lock().unwrap().1 = true;
+                    let _ = watcher.join();
+                    sandbox_reap(pid as u32);
+                    if cur < to {
+                        m.insert(cur, "aborted".to_string());
+                        cur += 1;
                     }
                 }
-            }
+                m
+            }));
+        }
+        let mut m = BTreeMap::new();
+        for t in threads {
+            m.extend(t.join().ok()?);
         }
         Some(m)
     };
@@ -911,9 +1005,23 @@ pub fn determinism<P: Prop>(verif_seed: u64, thorough: bool, n: u64) -> i32 {
     match (a, b, c) {
         (Some(a), Some(b), Some(c)) => {
             let mut bad = 0;
+            let mut aborted = 0;
             for i in 0..n {
+                // a run killed by the wall-clock limit or by the code under test says
+                // nothing about determinism; compare the layouts that completed it
+                let vals: Vec<&String> = [a.get(&i), b.get(&i), c.get(&i)]
+                    .into_iter()
+                    .flatten()
+                    .filter(|v| v.as_str() != "aborted")
+                    .collect();
+                if vals.len() < 3 {
+                    aborted += 1;
+                }
                 let x = a.get(&i);
-                if x.is_none() || x != b.get(&i) || x != c.get(&i) {
+                if vals.is_empty() && x.is_some() {
+                    continue;
+                }
+                if x.is_none() || vals.windows(2).any(|w| w[0] != w[1]) {
                     bad += 1;
                     if bad <= 10 {
                         println!(
@@ -927,10 +1035,11 @@ pub fn determinism<P: Prop>(verif_seed: u64, thorough: bool, n: u64) -> i32 {
                 }
             }
             println!(
-                "determinism {}: {} runs x 3 process layouts (16, 1, 5 processes), {} mismatches",
+                "determinism {}: {} runs x 3 process layouts (16, 1, 5 processes), {} mismatches, {} runs aborted in some layout",
                 P::id(),
                 n,
-                bad
+                bad,
+                aborted
             );
             if bad == 0 {
                 0
